@@ -44,7 +44,7 @@ func (eval Evaluator) Evaluate(ct *rlwe.Ciphertext, mcp Polynomial) (res *rlwe.C
 	for _, poly := range mcp {
 
 		// Checks that res has enough level to evaluate the next polynomial, else bootstrap
-		if res.Level() < poly.Depth()*params.LevelsConsumedPerRescaling()+btp.MinimumInputLevel() {
+		if res.Level() < Depth(poly)*params.LevelsConsumedPerRescaling()+btp.MinimumInputLevel() {
 			if res, err = btp.Bootstrap(res); err != nil {
 				return
 			}
